@@ -483,6 +483,34 @@ fn gen_drp(rng: &mut Rng, tier: Tier, emit: &mut dyn FnMut(String)) {
     }
 }
 
+/// translation validation of the regenerated `num_fri_layers` (Winter/Gen/FriOpts.lean; the driver evaluates the
+/// model AND the regenerated definition on every `nl` line): boundary and random operands beyond the protocol's grid
+/// (domain sizes that are no powers of two, up to usize::MAX; any remainder degree; blowup 1 .. 2^20)
+fn gen_nl_t(rng: &mut Rng, emit: &mut dyn FnMut(String)) {
+    let mut ds: Vec<usize> = vec![0, 1, 2, 3, usize::MAX, usize::MAX - 1, 1 << 63, (1 << 63) - 1, (1 << 63) + 1];
+    for k in [4u32, 5, 8, 13, 16, 31, 32, 33, 47, 62] {
+        ds.extend_from_slice(&[(1usize << k) - 1, 1usize << k, (1usize << k) + 1]);
+    }
+    for n in [2usize, 4, 8, 16] {
+        for d in &ds {
+            let r = *rng.pick(&[0usize, 1, 2, 3, 5, 7, 100, 255, 256, 1000, 65535]);
+            let b = 1usize << rng.below(21);
+            emit(format!("nl {} {} {} {}", b, n, r, d));
+        }
+        for _ in 0..100 {
+            let d = (rng.u64() >> rng.below(64)) as usize;
+            let r = (rng.u64() >> rng.range(44, 63)) as usize;
+            let b = 1usize << rng.below(21);
+            emit(format!("nl {} {} {} {}", b, n, r, d));
+            // on and next to the loop bound (r+1)*b
+            let m = (r + 1) * b;
+            for dd in [m, m + 1, m * n, m * n + 1, m * n * n - 1] {
+                emit(format!("nl {} {} {} {}", b, n, r, dd));
+            }
+        }
+    }
+}
+
 fn gen_pos(rng: &mut Rng, tier: Tier, emit: &mut dyn FnMut(String)) {
     let reps = if tier == Tier::Quick { 6 } else { 60 };
     for n in [2usize, 4, 8, 16] {
@@ -718,6 +746,7 @@ impl Prop for P {
         gen_nl(&mut |l| groups[2].push(l));
         gen_prove(rng, tier, n / 4, &mut |l| groups[3].push(l));
         gen_e2e(rng, tier, n, &mut |l| groups[4].push(l));
+        gen_nl_t(rng, &mut |l| groups[2].push(l));
         emit_interleaved(groups, emit);
     }
     fn exec(&self, line: &str) -> Outcome {
